@@ -816,3 +816,69 @@ register("C15", gen=gen_bgraph, oracles=[oracle.c15], nontrivial=bg_nontrivial, 
 _lvl("C15", "translation_validation",
      "connect_basins, Kruskal (class map), Boruvka (adjacency linked lists, low/large-degree lists, buckets - statement by statement) and orient_edges are modelled in Lean (Fs.Mst) and compared exactly (edges with pass nodes/weights/lengths, tree order) on every run for both methods; the oracle recomputes the lowest passes by an adjacency scan and the minimum spanning weight by an independent exact Kruskal, checks spanning/acyclicity/orientation and Kruskal = Boruvka weight. Theorems so far exist for a simplified Kruskal (class-map invariant, spanning) that is not yet tied to Fs.Mst.kruskal, so no proof is claimed.",
      "bit-exact differential correspondence with the Lean model of connect/Kruskal/Boruvka/orient + independent MST-weight oracle")
+
+
+# ----------------------------------------------------------------------------- C18
+
+def gen_meshes(rng, tier):
+    out = []
+    for k in range(counts(tier, 200, 2000)):
+        r = rng.random()
+        g = gen.mesh(rng, 2, 5 if tier == "quick" else 9, holes=True,
+                     status=("none" if r < 0.6 else ("map" if r < 0.8 else "arr")))
+        # malformed status inputs
+        if g.status is not None and rng.random() < 0.3:
+            if isinstance(g.status, dict):
+                if rng.random() < 0.5:
+                    g.status[rng.randrange(len(g.pts))] = "l"
+                else:
+                    g.status[len(g.pts) + rng.randint(0, 3)] = rng.choice("cvg")
+            else:
+                g.status = g.status[:-1] if rng.random() < 0.5 else g.status + ["c"]
+        # random relabelling of the nodes (hash order / vertex numbering independence)
+        if rng.random() < 0.5 and g.status is None:
+            perm = list(range(len(g.pts)))
+            rng.shuffle(perm)
+            inv = [0] * len(perm)
+            for a, b in enumerate(perm):
+                inv[b] = a
+            g.pts = [g.pts[inv[i]] for i in range(len(perm))]
+            g.tris = [tuple(perm[v] for v in t) for t in g.tris]
+        lines = [g.line(), "grid_common"]
+        qs = []
+        for i in range(len(g.pts)):
+            qs.append("q m %d" % i)
+            qs.append("q c %d" % i)
+        rng.shuffle(qs)
+        lines += qs
+        for w in ["all", "c", "v", "g"]:
+            lines.append("iter %s fwd" % w)
+        lines.append("graph single")
+        out.append(("t%d" % k, lines))
+    return out
+
+
+def mesh_tags(si):
+    t = []
+    g = si.calls[0].toks if si.calls else []
+    if si.calls and si.calls[0].O.get("grid", ["?"])[0] == "err":
+        t.append("rejected:" + si.calls[0].O["grid"][1])
+    if "map" in g:
+        t.append("status:map")
+    elif "arr" in g:
+        t.append("status:arr")
+    else:
+        t.append("status:default")
+    return t
+
+
+register("C18", gen=gen_meshes, oracles=[oracle.c18], nontrivial=grid_nontrivial, tags=mesh_tags,
+         sections={"grid", "size", "status", "area", "area_views_agree", "q", "iter", "base"},
+         lean_modules=["FsModel.Mesh", "FsProofs.Area"],
+         theorems=["Fs.Mesh.edgeMap_spec", "Fs.Mesh.insertEdge_unique", "tri_area_partition"],
+         rule="jittered / flipped lattices with holes, isolated nodes, random vertex order inside triangles and random node relabelling; default, map and array status incl. malformed ones (looped entry, out-of-range index, wrong length); neighbours compared as index-sorted lists, status and areas bit for bit; oracle recomputes edges, boundary and exact circumcentric shares in rationals; non-trivial = mesh accepted and queried",
+         trusted_base=["neighbour storage order of the mesh (unordered_map iteration) is implementation-defined: lists are compared sorted by index",
+                       "area theorem is over an arbitrary field (exact arithmetic); the Float instance of the same definitions is compared bit for bit with the C++"])
+_lvl("C18", "proof",
+     "Theorems about the definitions the model executes: edgeMap_spec (the orientation-insensitive edge map built from the triangles holds exactly the triangle edges, each once - so neighbours are exactly the nodes sharing a triangle edge, without duplicates, and the boundary test counts triangles per edge), tri_area_partition (over any field: the three circumcentric shares computed by triShares/areaSquare sum to the triangle's area, hence node areas sum to the covered area). Status rules, distances and the bincount accumulation order are model definitions tied by correspondence; oracle recomputes everything from the triangles in exact rationals.",
+     "Lean 4 proofs (list induction; field_simp + linear_combination) + bit-exact correspondence + exact-rational oracle")
